@@ -45,7 +45,8 @@ import treeio
 import lexreflib as L
 
 THEOREMS = ["C14_conforms", "C14_conforms_directives", "C14_munch", "C14_unambiguous", "C14_separated",
-            "C14_nested_comments", "C14_follow_necessary", "C14_side_condition_exact", "C14_unicode_tables"]
+            "C14_nested_comments", "C14_follow_necessary", "C14_side_condition_exact", "C14_unicode_tables",
+            "C14_model_is_source", "C14_next_token_is_source", "C14_conforms_source"]
 KEY_D26 = "radix-prefix-identifier"
 TRUSTED = [
     "Coq 8.16.1 kernel (coqc, vm_compute where the proofs use it); Print Assumptions of every theorem is checked against the allow-list (target: closed under the global context)",
@@ -982,7 +983,7 @@ def run(ctx):
     t0 = time.time()
     timing = {}
     bindir = vlib.build_harness(False, bins=["lexdump", "unidump"])
-    translators = ["t_tokens", "t_lextables", "t_unicode"]
+    translators = ["t_tokens", "t_lextables", "t_unicode", "t_lexer"]
     skip_proof = os.environ.get("C14_SKIP_PROOF") == "1"
     if skip_proof:
         fails = []
